@@ -216,6 +216,10 @@ def _case(rng, **kw):
         "lr": float([1e-4, 1e-2][int(rng.integers(2))]),
         "seed": int(rng.integers(1 << 30)),
         "steps": 3,
+        # discount / n-step exponent that reach the agent AFTER construction (what an RL-hyperparameter mutation, a config
+        # reload or the user does): "construct" = constructor arguments, "assign" = constructed with other values, then
+        # assigned, "mutate" = gamma through Mutations.rl_hyperparam_mutation with a one-point range
+        "hp_route": ["construct", "construct", "assign", "mutate"][int(rng.integers(4))],
     }
     c.update(kw)
     return c
@@ -638,6 +642,18 @@ def run_case(case):
     rng = np.random.default_rng(case["seed"])
     where = "construct"
     try:
+        route = case.get("hp_route", "construct")
+        g0, n0 = case["gamma"], case["n_step"]
+        hp_config = None
+        if route != "construct":
+            g0 = [0.5, 0.95][case["seed"] % 2] if case["gamma"] not in (0.5, 0.95) else 0.7
+            if route == "assign":
+                n0 = 1 + (case["n_step"] % 3)
+            else:
+                from agilerl.algorithms.core.registry import HyperparameterConfig, RLParameter
+
+                # min == max: whichever branch the mutation draws, the new value is exactly case["gamma"]
+                hp_config = HyperparameterConfig(gamma=RLParameter(min=case["gamma"], max=case["gamma"], shrink_factor=0.5, grow_factor=2.0))
         agent = RainbowDQN(
             spaces.Box(-1, 1, (OBS_DIM,), dtype=np.float32),
             spaces.Discrete(case["nA"]),
@@ -645,12 +661,24 @@ def run_case(case):
             num_atoms=case["atoms"],
             v_min=case["vmin"],
             v_max=case["vmax"],
-            gamma=case["gamma"],
-            n_step=case["n_step"],
+            gamma=g0,
+            n_step=n0,
             combined_reward=(case["mode"] == "combined"),
             lr=case["lr"],
             net_config={"encoder_config": {"hidden_size": [16]}, "head_config": {"hidden_size": [16]}},
+            **({"hp_config": hp_config} if hp_config is not None else {}),
         )
+        if route == "assign":
+            agent.gamma = case["gamma"]
+            agent.n_step = case["n_step"]
+            rec.hit("agents_with_discount_assigned_after_construction")
+        elif route == "mutate":
+            from vf import agentops
+
+            agent = agentops.make_mutations("rl_hp", seed=case["seed"] % 9973).mutation([agent])[0]
+            rec.hit("agents_with_discount_mutated_after_construction")
+            if float(agent.gamma) != float(case["gamma"]):
+                rec.hit("discount_mutation_did_not_give_the_configured_value(info)")
         _randomise(agent.actor, case["wscale"], False, gen)
         _randomise(agent.actor_target, case["wscale"], case["peaked"], gen)
         agent.actor.reset_noise()
